@@ -10,6 +10,7 @@ The code only ever *adds* to the sentinel and compares: in IEEE round-to-nearest
 `std::min(D[i][j], D[i][k]+D[k][j])` keeps `D[i][j]` whenever one summand is the sentinel.
 That is `oadd`/`omin` below.
 -/
+import AdaptaVerif.Model.PairingHeap
 namespace AdaptaVerif.Model.ShortestPaths
 
 /-- weighted undirected multigraph: vertices `0 … n-1`, edges `(u, v, w)` in the order in which
@@ -154,6 +155,60 @@ def dijkstra (sel : Selector) (g : Graph) (s : Nat) : Vec :=
 /-- `johnsons`: `dijkstra(k, vs, D[k])` for every `k` -/
 def johnsons (sel : Selector) (g : Graph) : Mat :=
   ((List.range g.n).map (dijkstra sel g)).toArray
+
+/-! ### dijkstra exactly as coded: driven by the pairing heap
+
+`PairingHeap<Node<T>*,CompareNodes<T>> Q`; all nodes inserted in index order; `extractMin`;
+`d[u->id]=u->d`; for every neighbour `if (u->d != max && v->d > u->d+w) { v->d = u->d+w;
+Q.decreaseKey(v->qnode, v); }`.  The heap stores node pointers and compares `u->d < v->d`; the
+model stores the key `d[v]` next to the identity `v` (they agree whenever the heap is touched,
+because a key only changes immediately before its `decreaseKey`). -/
+
+open AdaptaVerif.Model.PairingHeap in
+structure HState where
+  d : Vec
+  out : Vec
+  heap : PTree Dist
+  order : List Nat          -- extraction order, most recent first (observable for the correspondence only)
+
+open AdaptaVerif.Model.PairingHeap in
+def relaxEdgeH (u : Nat) (st : Vec × PTree Dist) (vw : Nat × Rat) : Vec × PTree Dist :=
+  match st.1.at u with
+  | none => st
+  | some a =>
+    if gtD (st.1.at vw.1) (a + vw.2) then
+      (st.1.setIfInBounds vw.1 (some (a + vw.2)), decreaseKey ltDist st.2 vw.1 (some (a + vw.2)))
+    else st
+
+open AdaptaVerif.Model.PairingHeap in
+/-- `for i in 0..n-1: vs[i].qnode = Q.insert(&vs[i])` -/
+def heapInit (d : Vec) (n : Nat) : PTree Dist :=
+  (List.range n).foldl (fun h i => insert ltDist h (d.at i) i) .nil
+
+open AdaptaVerif.Model.PairingHeap in
+def dijkstraHeapLoop (es : List (Nat × Nat × Rat)) : Nat → HState → HState
+  | 0, st => st
+  | fuel + 1, st =>
+    match findMin st.heap with
+    | none => st
+    | some (_, u) =>
+      let r := (adj es u).foldl (relaxEdgeH u) (st.d, deleteMin ltDist st.heap)
+      dijkstraHeapLoop es fuel
+        { d := r.1, out := st.out.setIfInBounds u (st.d.at u), heap := r.2, order := u :: st.order }
+
+def dijkstraHeapInit (n s : Nat) : HState :=
+  let d : Vec := (Array.replicate n none).setIfInBounds s (some 0)
+  { d := d, out := Array.replicate n none, heap := heapInit d n, order := [] }
+
+def dijkstraHeapRun (g : Graph) (s : Nat) : HState := dijkstraHeapLoop g.edges g.n (dijkstraHeapInit g.n s)
+
+/-- `dijkstra(s, n, d, es, eweights)` with the real queue discipline -/
+def dijkstraHeap (g : Graph) (s : Nat) : Vec := (dijkstraHeapRun g s).out
+
+/-- order in which the nodes leave the heap -/
+def dijkstraHeapOrder (g : Graph) (s : Nat) : List Nat := (dijkstraHeapRun g s).order.reverse
+
+def johnsonsHeap (g : Graph) : Mat := ((List.range g.n).map (dijkstraHeap g)).toArray
 
 /-! ### ConstrainedFDLayout: D and G matrices -/
 
